@@ -8,6 +8,9 @@ writer's per-record rule, IdxLayout, ReadBack) and the modules that extend it:
   PackFmtWriter   the writer as a state machine (record generation incl. deltify window and delta reuse,
                   PackChunkGenerator's full | OFS | REF rule, index from dict or from scan); invariants =
                   the layout clauses; every completed behaviour is printed as a CASE
+  PackFmtMidx     multi-pack-index layout (OOFF/LOFF two-level offsets, chunk table) on synthetic tables over two packs
+  PackFmtMidxStore  histories pack / repack under the same name / write or drop the multi-pack-index; a fresh
+                  DiskObjectStore reads every object back at every state (the pack's own index is authoritative)
   PackFmtGit      scenario space for packs written by C git
   PackFmtTrace    judge of recorded executions (one verdict per trace)
 
@@ -493,8 +496,14 @@ def run(ctx):
     iplan = [("idx", "PackFmtIdx_q.cfg", idump)] + ([] if quick else [("idx3", "PackFmtIdx_t.cfg", idump + "3")])
     for key, cfg, dump in iplan:
         futs[key] = tlc_job(f"PackFmtIdx[{cfg[11:-4]}]", "PackFmtIdx.tla", cfg, 2, dump_states=dump)
+    mdump = os.path.join(ctx.scratch, "midx")
+    sdump = os.path.join(ctx.scratch, "midxstore")
+    futs["midx"] = tlc_job("PackFmtMidx", "PackFmtMidx.tla", ctx.pick("PackFmtMidx_q.cfg", "PackFmtMidx_t.cfg"), 2, dump_states=mdump)
+    futs["midxstore"] = tlc_job("PackFmtMidxStore", "PackFmtMidxStore.tla", ctx.pick("PackFmtMidxStore_q.cfg", "PackFmtMidxStore_t.cfg"), 1,
+                                dump_states=sdump)
     futs["git"] = tlc_job("PackFmtGit", "PackFmtGit.tla", ctx.pick("PackFmtGit_q.cfg", "PackFmtGit_t.cfg"), 1, dump_states=gdump)
     negs = [("PackFmtVarint.tla", "PackFmtVarint_neg_plain.cfg", ["Lemma"]), ("PackFmtIdx.tla", "PackFmtIdx_neg_msb.cfg", ["Lemma"]),
+            ("PackFmtMidx.tla", "PackFmtMidx_neg_loff32.cfg", ["Lemma"]), ("PackFmtMidxStore.tla", "PackFmtMidxStore_neg_trust.cfg", ["ReadInv"]),
             ("PackFmtWriter.tla", "PackFmtWriter_neg_dup.cfg", ["IdxInv"]), ("PackFmtWriter.tla", "PackFmtWriter_neg_dupscan.cfg", ["GitInv"]),
             ("PackFmtWriter.tla", "PackFmtWriter_neg_ofs.cfg", ["PackInv"]), ("PackFmtWriter.tla", "PackFmtWriter_fix_dup.cfg", [])]
     dupmod = [m for (n_, s_, m) in wplan if n_ == "dup"][0]
@@ -572,6 +581,14 @@ def run(ctx):
         s["git"] = (k % ctx.pick(8, 16) == 0)
     ifuts = [("rs" if k % 2 == 0 else "py", pool.submit("rs" if k % 2 == 0 else "py", "idx", states=p))
              for k, p in enumerate(split_jobs(istates, 4))]
+    # multi-pack-index: layout states and store histories
+    mstates = list(load_midx_states(mdump + ".dump"))
+    mfuts = [("rs" if k % 2 == 0 else "py", pool.submit("rs" if k % 2 == 0 else "py", "midx", states=p, np=2))
+             for k, p in enumerate(split_jobs(mstates, 4))]
+    sstates = [{"hist": [[str(op), int(a)] for (op, a) in st["hist"]], "layout": st["layout"], "midx": st["midx"]}
+               for st in tlc.load_state_dump(sdump + ".dump")]
+    sfuts = [("rs" if k % 2 == 0 else "py", pool.submit("rs" if k % 2 == 0 else "py", "midxstore", states=p))
+             for k, p in enumerate(split_jobs(sstates, 4))]
     # writer cases
     wcases = []
     cid = 1
@@ -629,7 +646,44 @@ def run(ctx):
             judge.capped(f"dulwich/pack.py:{fn}|{b['clause']}",
                          f"oid={b['oid']} n={len(b['offs'])} offsets={'+'.join(big) or 'none'} first={b['firsts']}",
                          f"{fn} on a synthetic table: {b['clause']} {b.get('exc', '')}", {"idx_state": b, "mode": imode})
-    ctx.log(f"varint and idx states replayed: {n_v} + {n_i}")
+    n_m = 0
+    for mmode, f in mfuts:
+        r = f.result()
+        n_m += r["n"]
+        ctx.count(r["n"])
+        ctx.validated(r["n"])
+        for b in r["bad"]:
+            fn = "write_midx" if not (b["clause"].startswith("Read:") or b["clause"].startswith("Entries:")) else "MultiPackIndex"
+            big = sorted({("<2^31" if o < 2 ** 31 else "<2^32" if o < 2 ** 32 else ">=2^32") for o in b["offs"]})
+            judge.capped(f"dulwich/midx.py:{fn}|{b['clause']}",
+                         f"oid={b['oid']} n={len(b['offs'])} offsets={'+'.join(big) or 'none'} packs={sorted(set(b['pids']))}",
+                         f"{fn} on a synthetic table: {b['clause']} {b.get('exc', '')}", {"midx_state": b, "mode": mmode})
+        if r["n"]:
+            ctx.nontrivial(("midx", mmode))
+    n_s = 0
+    for smode, f in sfuts:
+        r = f.result()
+        for x in r["results"]:
+            if "worker_error" in x:
+                raise MachineryError(f"C02 multi-pack-index history {x['hist']} could not be replayed: {x['worker_error']}")
+            n_s += 1
+            ctx.count(1)
+            ctx.validated(1)
+            if x["midx_on_disk"] != (x["midx"] != 0):
+                ctx.drift_event(f"multi-pack-index on disk: {x['midx_on_disk']}, PackFmtMidxStore says midx={x['midx']} after {x['hist']}")
+            if x["layout"]:
+                ctx.nontrivial(("midxstore", json.dumps(x["hist"])))
+            state = "none" if x["midx"] == 0 else "fresh" if x["midx"] == x["layout"] else "stale"
+            for reader, why in sorted(x["failed"].items()):
+                # ReadInv of PackFmtMidxStore: every object is read back exactly at every state with a pack
+                site = {"get_raw": "DiskObjectStore.get_raw", "get_raw-hex": "DiskObjectStore.get_raw", "getitem": "BaseObjectStore.__getitem__",
+                        "contains": "DiskObjectStore.contains_packed", "contains_packed": "DiskObjectStore.contains_packed",
+                        "iter": "PackBasedObjectStore.__iter__", "iterobjects_subset": "PackBasedObjectStore.iterobjects_subset"}[reader]
+                judge.capped(f"dulwich/object_store.py:{site}|Read:{reader}",
+                             f"multi-pack-index {state} ops={'+'.join(op for op, _a in x['hist'])}",
+                             f"a fresh DiskObjectStore does not read back what the pack holds through {reader} with a {state} "
+                             f"multi-pack-index after {x['hist']}: {why}", {"midx_history": x, "mode": smode})
+    ctx.log(f"varint, idx and midx states replayed: {n_v} + {n_i} + {n_m}; {n_s} store histories")
     results_w, traces, gtraces = {}, [], []
     skipped = 0
     tdone = {}
@@ -670,7 +724,8 @@ def run(ctx):
     ctx.sample({"varint_state": vstates[len(vstates) // 2]})
     ctx.cov.update({
         "writer_cases": st["writer_cases"], "writer_cases_compared_with_model": st["model_compared"], "refusals": st["refusals"],
-        "git_packs_read": st["git_traces"], "varint_states_replayed": n_v, "idx_states_replayed": n_i,
+        "git_packs_read": st["git_traces"], "varint_states_replayed": n_v, "idx_states_replayed": n_i, "midx_states_replayed": n_m,
+        "midx_store_histories_replayed": n_s,
         "skipped_for_time": st["skipped"], "ofs_varint_lengths_seen": sorted(st["ofs_bytes"]),
         "size_varint_lengths_seen": sorted(st["hdr_bytes"]), "entry_kinds_seen": sorted(st["kinds"]),
         "max_delta_chain_depth": st["maxdepth"], "idx_byte_identical_with_git": st["idx_identical"],
@@ -689,6 +744,12 @@ def run(ctx):
     pool.close()
     tex.shutdown(wait=False)
     return ctx.finish(exhaustive=False)
+
+
+def load_midx_states(path):
+    for st in tlc.load_state_dump(path):
+        yield {"firsts": list(st["firsts"]), "offs": [L.unlimb(o) for o in st["offs"]], "pids": list(st["pids"]), "oid": st["oid"],
+               "o32": [x for w in st["o32"] for x in w], "o64": [L.unlimb(o) for o in st["o64"]], "nchunks": st["nchunks"], "len": st["len"]}
 
 
 def load_idx_states(path):
@@ -743,6 +804,24 @@ def replay(ctx, path):
         for x in r["bad"]:
             print(f"  {x['fn']}: got {x.get('got', x.get('exc'))} expected {x.get('want', '(the value)')}")
         rc = 1 if r["nbad"] else 0
+    elif "midx_state" in obj:
+        b = obj["midx_state"]
+        r = pool.submit(mode, "midx", states=[b["state"]], np=2).result()
+        print(f"  synthetic multi-pack-index table: first bytes {b['firsts']} offsets {b['offs']} pack ids {b['pids']} hash length {b['oid']}")
+        print(f"  expected by PackFmtMidx: chunks={b['state']['nchunks']} OOFF(msb,low)={b['state']['o32']} LOFF={b['state']['o64']} length={b['state']['len']}")
+        for x in r["bad"]:
+            print(f"  failed clause: {x['clause']} {x.get('exc', '')}")
+        rc = 1 if r["nbad"] else 0
+    elif "midx_history" in obj:
+        h = obj["midx_history"]
+        r = pool.submit(mode, "midxstore", states=[{"hist": h["hist"], "layout": h["layout"], "midx": h["midx"]}]).result()
+        x = r["results"][0]
+        if "worker_error" in x:
+            raise MachineryError(x["worker_error"])
+        print(f"  history (PackFmtMidxStore): {h['hist']}  layout on disk={h['layout']} multi-pack-index written from layout={h['midx']}")
+        for reader, why in sorted(x["failed"].items()):
+            print(f"  fresh reader {reader}: {why}")
+        rc = 1 if x["failed"] else 0
     elif "idx_state" in obj:
         b = obj["idx_state"]
         r = pool.submit(mode, "idx", states=[dict(b["state"], git=True)]).result()
